@@ -113,6 +113,14 @@ class SymKernel(object):
     def written_objects(self):
         return [o.name for o in self.m.objs if o.written and o.kind in ('global', 'arg')]
 
+    def heap_ids(self):
+        """ids of the live heap objects (to tell apart what an object owns from what a later call allocates)"""
+        return set(o.oid for o in self.m.live_heap())
+
+    def heap_written(self, ids):
+        """names of the heap objects among ids written since reset_written()"""
+        return sorted("%s#%d(%d bytes)" % (o.name, o.oid, o.size) for o in self.m.objs if o.oid in ids and o.written)
+
     def reset_written(self):
         for o in self.m.objs:
             o.written = False
@@ -206,6 +214,28 @@ class SymKernel(object):
 _MACROS = ["HAVE_STDINT_H", "PYCRYPTO_LITTLE_ENDIAN", "SYS_BITS=64", "LTC_NO_ASM", "HAVE_UINT128",
            "HAVE_CPUID_H", "HAVE_POSIX_MEMALIGN", "NDEBUG"]
 _libs = {}
+# translation units the real build links together with the kernel's file (replay / validation only)
+EXTRA_SOURCES = {'mod25519.c': ['multiply_64.c'], 'bignum.c': ['multiply_64.c'], 'curve448.c': ['mont.c'],
+                 'ec_ws.c+mont.c': ['p256_table.c', 'p384_table.c', 'p521_table.c']}
+
+
+_SHIM = r"""
+#include <stdlib.h>
+#include <string.h>
+#define MAXA 8192
+static void *vk_ptr[MAXA]; static size_t vk_size[MAXA]; static int vk_alive[MAXA]; static int vk_n;
+void *__real_malloc(size_t); void *__real_calloc(size_t, size_t); void __real_free(void *);
+int __real_posix_memalign(void **, size_t, size_t);
+static void rec(void *p, size_t n) { if (p && vk_n < MAXA) { vk_ptr[vk_n] = p; vk_size[vk_n] = n; vk_alive[vk_n] = 1; vk_n++; } }
+void *__wrap_malloc(size_t n) { void *p = __real_malloc(n); rec(p, n); return p; }
+void *__wrap_calloc(size_t a, size_t b) { void *p = __real_calloc(a, b); rec(p, a * b); return p; }
+int __wrap_posix_memalign(void **pp, size_t al, size_t n) { int r = __real_posix_memalign(pp, al, n); if (!r) rec(*pp, n); return r; }
+void __wrap_free(void *p) { int i; for (i = vk_n - 1; i >= 0; i--) if (vk_alive[i] && vk_ptr[i] == p) { vk_alive[i] = 0; break; } __real_free(p); }
+int vk_count(void) { return vk_n; }
+void *vk_addr(int i) { return vk_ptr[i]; }
+size_t vk_len(int i) { return vk_size[i]; }
+int vk_is_alive(int i) { return vk_alive[i]; }
+"""
 
 
 def _compile(cfile, extra_macros=(), sanitize=False):
@@ -220,7 +250,12 @@ def _compile(cfile, extra_macros=(), sanitize=False):
         cmd.append("-D" + m)
     if sanitize:
         cmd += ["-fsanitize=address", "-fno-omit-frame-pointer"]
-    cmd += [os.path.join(src, cfile), "-o", so]
+    # allocation tracker (link-time wrappers): lets the concrete replay see which heap blocks a call writes
+    shim = os.path.join(d, "vk_shim.c")
+    with open(shim, "w") as f:
+        f.write(_SHIM)
+    cmd += ["-Wl,--wrap=malloc", "-Wl,--wrap=calloc", "-Wl,--wrap=free", "-Wl,--wrap=posix_memalign", shim]
+    cmd += [os.path.join(src, x) for x in cfile.split('+')] + [os.path.join(src, x) for x in EXTRA_SOURCES.get(cfile, [])] + ["-o", so]
     r = subprocess.run(cmd, capture_output=True, text=True)
     if r.returncode != 0:
         shutil.rmtree(d, ignore_errors=True)
@@ -247,6 +282,7 @@ class RealKernel(object):
         self.env = env
         self.lib = _compile(cfile, extra_macros, sanitize=bool(os.environ.get('VERIF_ASAN')))
         self.cfile = cfile
+        self.extra_macros = tuple(extra_macros)
         self.bufs = []
         self.stubs = stubs or {}
         self.corrupt = []
@@ -320,11 +356,33 @@ class RealKernel(object):
     def written_objects(self):
         return []
 
+    def _heap(self):
+        L = self.lib
+        L.vk_addr.restype = ctypes.c_void_p
+        L.vk_len.restype = ctypes.c_size_t
+        out = {}
+        for i in range(L.vk_count()):
+            if L.vk_is_alive(i):
+                out[i] = (L.vk_addr(i), L.vk_len(i))
+        return out
+
+    def heap_ids(self):
+        return set(self._heap())
+
     def reset_written(self):
-        pass
+        self._snap = dict((i, ctypes.string_at(a, n)) for i, (a, n) in self._heap().items())
+
+    def heap_written(self, ids):
+        snap = getattr(self, '_snap', {})
+        cur = self._heap()
+        return sorted("heap#%d(%d bytes)" % (i, cur[i][1]) for i in ids if i in cur and i in snap and ctypes.string_at(*cur[i]) != snap[i])
 
     def check_frame(self, allowed_prefixes, label=""):
         self.env.check(not self.corrupt, "read-only buffers unchanged")
+        # module-private storage cannot be observed through ctypes: confirm writable statics on the compiled IR
+        from . import build
+        bad = build.written_globals(self.cfile, self.extra_macros)
+        self.env.check(not bad, "no module global is written (no writable static) [written: %s]" % ", ".join(bad))
 
     _OFFS = {}
 
